@@ -179,6 +179,10 @@ def prop(spec, rec):
         labels.add("omits_station")
     for e in spec["scheduler"]["table"]:
         labels.add("vtype_" + e.get("vtype", "none"))
+    if spec.get("int_first"):
+        labels.add("all_integer_schedule_first")
+    if np.isinf(P[:, : m.end]).any():
+        labels.add("infinite_pilot_applied")
     for t in ts:
         for sid, vals in sub[t].items():
             lv = sc.allowed_levels([x for x in spec["stations"] if x["id"] == sid][0])
@@ -220,6 +224,30 @@ def cases(draw):
         spec["malformed"] = {"t": t, "kind": kind, "entry": entry}
     elif draw(st.integers(0, 2)) == 0:
         spec["json_at"] = draw(st.sampled_from(sc.Model(spec).invocations))
+    if draw(st.integers(0, 4)) == 0:
+        # an all-integer schedule for every station submitted in period 0 and reaching to (or
+        # beyond) the last queued event, followed later by schedules with fractional values:
+        # the pilot matrix must not take its number type from the first schedule it sees
+        m = sc.Model(spec)
+        L = m.last + 1 + draw(st.sampled_from([0, 0, 1, 3]))
+        rows0, rows1 = {}, {}
+        L1 = draw(st.integers(1, 2))
+        for stn in spec["stations"]:
+            ints = [v for v in sc.allowed_levels(stn) if float(v).is_integer() and v < 1e5]
+            rows0[stn["id"]] = [draw(st.sampled_from(ints)) for _ in range(L)]
+            if stn["kind"] == "finite":
+                frac = max(float(r) for r in stn["rates"]) - 5e-4
+            elif stn["kind"] == "deadband":
+                frac = float(stn["end"]) + 0.5
+            else:
+                frac = 7.5
+            rows1[stn["id"]] = [frac] * L1
+        first = {"rows": rows0, "order": list(draw(st.permutations(sorted(rows0)))), "vtype": "int"}
+        second = {"rows": rows1, "order": sorted(rows1), "vtype": "float"}
+        spec["scheduler"]["table"] = [first, second] + spec["scheduler"]["table"][:2]
+        if spec["scheduler"].get("max_recompute") is None and 0 not in m.event_times:
+            spec["scheduler"]["max_recompute"] = draw(st.sampled_from([1, 2]))
+        spec["int_first"] = True
     return spec
 
 
@@ -231,7 +259,7 @@ def subchecks(tier):
             prop,
             quick=500,
             thorough=40000,
-            floors={"json_resume": 0.1, "beyond_horizon_at_last_period": 0.04, "malformed_unknown_station": 0.04, "malformed_unequal_length": 0.02, "overlapping_schedules": 0.3, "omits_station": 0.205, "empty_schedule": 0.1, "off_level_pilot_finite_evse": 0.025},
+            floors={"json_resume": 0.1, "beyond_horizon_at_last_period": 0.04, "malformed_unknown_station": 0.04, "malformed_unequal_length": 0.02, "overlapping_schedules": 0.3, "omits_station": 0.205, "empty_schedule": 0.1, "off_level_pilot_finite_evse": 0.025, "all_integer_schedule_first": 0.08, "infinite_pilot_applied": 0.02},
             min_nontrivial=50,
         )
     ]
